@@ -165,6 +165,7 @@ def step (d : D) (fs : List String) : D × String :=
     | some n, some dat, some mt =>
       if n < s.hub.next then ({ d with s := { s with hub := Hub.step s.hub (.inbound n dat mt) } }, "ok") else (d, "bad-op")
     | _, _, _ => (d, "bad-op")
+  | ["settle", ms] => if ms.toNat?.isSome then (d, "ok") else (d, "bad-op")     -- real time passes; nothing in the model depends on it
   | "sync" :: _ => doSync { d with s := s }
   | ["close", n] => match parseConn n with
     | some n => if n < s.hub.next then ({ d with s := { s with hub := Hub.step s.hub (.unregister n) } }, "ok") else (d, "bad-op")
